@@ -106,7 +106,7 @@ DEFAULTS = {
     'unregister_view_types': ['IView', 'ISecuredView'],
     'override_unregister_view_types': ['IView', 'ISecuredView'],
     'accept_order': ['text/html', 'application/xhtml+xml', 'application/xml', 'text/xml', 'text/plain', 'application/json'],
-    'rm_get': 'GET', 'rm_head': 'HEAD', 'not_mark': '!',
+    'rm_get': 'GET', 'rm_head': 'HEAD', 'not_mark': '!', 'phash_of_final_pred': True,
     'pfx': {'xhr': ('xhr = ', None), 'request_method': ('request_method = ', ','), 'path_info': ('path_info = ', None),
             'request_param': ('request_param ', ','), 'header': ('header ', ', '), 'accept': ('accept = ', ', '),
             'containment': ('containment = ', None), 'match_param': ('match_param ', ','),
@@ -176,6 +176,37 @@ def extract(src, problems):
         if len(ret) != 1 or ast.unparse(ret[0].value) != '(order, preds, phash.hexdigest())':
             raise Unk('return of make')
     attempt('PredicateList.make arithmetic', f_make)
+
+    def f_final():
+        # inside `for val in vals`: pred = factory(...); if notted: pred = Notted(pred); hashes = pred.phash();
+        # ...; preds.append(pred) -- the hashed object and the appended object are the final (possibly Notted) one
+        v['phash_of_final_pred'] = False
+        loops = [n for n in ast.walk(make) if isinstance(n, ast.For) and isinstance(n.target, ast.Name)
+                 and n.target.id == 'val']
+        if len(loops) != 1:
+            raise Unk('for val in vals')
+        body = loops[0].body
+        src = [ast.unparse(st) for st in body]
+
+        def idx(pred):
+            hits = [i for i, t in enumerate(src) if pred(t)]
+            if len(hits) != 1:
+                raise Unk('statement order in the val loop')
+            return hits[0]
+        i_fact = idx(lambda t: t == 'pred = predicate_factory(realval, info)')
+        i_not = idx(lambda t: t.startswith('if notted:'))
+        i_hash = idx(lambda t: t == 'hashes = pred.phash()')
+        i_app = idx(lambda t: t == 'preds.append(pred)')
+        if ast.unparse(body[i_not]) != 'if notted:\n    pred = Notted(pred)':
+            raise Unk('the notted branch')
+        others = [i for i, t in enumerate(src) if i not in (i_fact, i_not) and
+                  any(isinstance(n, ast.Name) and n.id == 'pred' and isinstance(n.ctx, ast.Store) for n in ast.walk(body[i]))]
+        if others:
+            raise Unk('pred is rebound elsewhere')
+        if not (i_fact < i_not < i_hash and i_not < i_app):
+            raise Unk('phash() is taken before the predicate is wrapped in Notted (or the unwrapped one is kept)')
+        v['phash_of_final_pred'] = True
+    attempt('phash of the final predicate object', f_final)
 
     def f_names():
         fn = mv.find('ViewsConfiguratorMixin.add_default_view_predicates')
@@ -309,7 +340,9 @@ def emit(v):
            'Definition unregister_view_type_names : list text := %s.\n' % F.coq_texts(v['unregister_view_types']),
            'Definition override_unregister_view_type_names : list text := %s.\n' % F.coq_texts(v['override_unregister_view_types']),
            'Definition rm_get : text := %s.\nDefinition rm_head : text := %s.\n' % (T(v['rm_get']), T(v['rm_head'])),
-           'Definition not_mark : text := %s.\n' % T(v['not_mark'])]
+           'Definition not_mark : text := %s.\n' % T(v['not_mark']),
+           '(* make hashes and keeps the final (possibly Notted) predicate object *)\n',
+           'Definition phash_of_final_pred : bool := %s.\n' % F.coq_bool(v['phash_of_final_pred'])]
     for stem, (p, s) in sorted(v['pfx'].items()):
         out.append('Definition pfx_%s : text := %s.\n' % (stem, T(p)))
         if s is not None:
